@@ -162,8 +162,10 @@ def xml_to_tupletree_sax(xml_string, meaning, conn_id=None):
 
     try:
         xml.sax.parseString(xml_string, handler, None)
-    except LookupError as exc:
-        # The XML declaration specifies an encoding Python does not know
+    except (LookupError, ValueError) as exc:
+        # The XML declaration specifies an encoding that Python does not know
+        # (LookupError) or that the XML parser does not support (ValueError,
+        # e.g. for 'utf-7': 'multi-byte encodings are not supported')
         pe = XMLParseError(
             _format("XML parsing error encountered in {0}: {1}\n",
                     meaning, exc),
